@@ -15,7 +15,7 @@ package dispatcher
 //@   ensures forwarded == old(forwarded) + 1 && fwdlocation == old(h.Location) && fwdtransport == old(h.Transport)
 //@   ensures old(h.Location) != nil ==> fwdpath == old(h.Location.Path) && fwdrawpath == old(h.Location.RawPath) && fwdscheme == old(h.Location.Scheme) && fwdhost == old(h.Location.Host)
 
-//@ func NewUpgradeAwareHandler props C04, C03
+//@ func NewUpgradeAwareHandler props C04
 //@   modifies nothing
 //@   ensures [wired] result != nil && fresh(result) && result.UpgradeAwareHandler != nil && result.Location == location && result.Transport == transport
 
